@@ -70,6 +70,11 @@ enum ErrorKind {
     OutOfPositionRootNodeInChain,
     #[error("the compiled bytecode is larger than the maximum size of 4GB (size: {0} bytes)")]
     ResultingBytecodeIsTooLarge(usize),
+    #[error(
+        "too many patterns in a nested match pattern, {0} is greater than the maximum of {max}",
+        max = i8::MAX
+    )]
+    TooManyNestedPatterns(usize),
     #[error("too many targets in assignment ({0})")]
     TooManyAssignmentTargets(usize),
     #[error(
@@ -975,6 +980,13 @@ impl Compiler {
             } => {
                 self.push_span(ctx.node_with_span(arg), ctx.ast);
 
+                // Nested args are unpacked with i8 indices (negative from the end)
+                if nested_args.len() > i8::MAX as usize {
+                    return self.error(ErrorKind::FunctionPropertyLimit {
+                        property: "nested args".into(),
+                        amount: nested_args.len(),
+                    });
+                }
                 let (size_op, size_to_check) = args_size_op(nested_args, ctx.ast);
                 self.push_op(size_op, &[arg_register, size_to_check as u8]);
                 self.compile_unpack_nested_args_of_tuple(arg_register, nested_args, ctx)?;
@@ -4505,6 +4517,11 @@ impl Compiler {
         ctx: CompileNodeContext,
     ) -> Result<()> {
         use Op::*;
+
+        // Nested patterns are matched with i8 indices (negative from the end)
+        if nested_patterns.len() > i8::MAX as usize {
+            return self.error(ErrorKind::TooManyNestedPatterns(nested_patterns.len()));
+        }
 
         let value_register = if let Some(pattern_index) = pattern_index {
             // Place the nested container into a register
